@@ -108,4 +108,25 @@ def build(tier, seed):
         kk.bounds = ['chains of 1..3 nested modules with one leaf item; helper use sets: all; one child per module']
         return kk
     ks.append(kernel_or_error('module_helpers', modules))
+    def argnames():
+        G = os.path.dirname(os.path.dirname(os.path.abspath(__file__)))
+        mod = rd('codegen/mod.rs')
+        it = extract(mod, r'^    pub\(crate\) fn fnsig_arguments_iter<', what='utils::fnsig_arguments_iter')
+        fa = extract(mod, r'^    pub\(crate\) fn fnsig_arguments\(', what='utils::fnsig_arguments')
+        fi = extract(mod, r'^    pub\(crate\) fn fnsig_argument_identifiers\(', what='utils::fnsig_argument_identifiers')
+        def rw(t):
+            t, k = re.subn(r'format!\("arg\{unnamed_arguments\}"\)', 'format!("arg{}", unnamed_arguments)', t)
+            if k != 1:
+                raise SliceError('expected one format!("arg{unnamed_arguments}") per function')
+            return t
+        h = open(os.path.join(G, 'harness', 'c01_args.rs')).read().replace('/*ARGS_ITER*/', rw(it)).replace('/*ARGS*/', fa).replace('/*IDENTS*/', rw(fi))
+        kk = Kernel(name='parameter_names')
+        kk.files = {'src/lib.rs': h}
+        kk.harnesses = [H('binding_parameters_have_distinct_names_and_calls_use_the_same_ones', timeout=900, desc='fnsig_arguments(_iter) and fnsig_argument_identifiers: named parameters keep their names, made-up names never collide with them or with each other, the identifier list used for forwarding calls is the same sequence, `...` comes last', sample='<= 3 parameters: unnamed / named / called arg<k> by the user; variadic or not')]
+        kk.encoded = [enc('codegen/mod.rs', 'utils::fnsig_arguments_iter', it), enc('codegen/mod.rs', 'utils::fnsig_arguments', fa), enc('codegen/mod.rs', 'utils::fnsig_argument_identifiers', fi)]
+        kk.stubs = ['String = Tok (identity of a name); rust_mangle / rust_ident: identity (the escaping decision is kernel mangle)', 'quote!: three arms (`name: type`, `...`, identifier)', 'rewrite: format!("arg{unnamed_arguments}") -> format!("arg{}", unnamed_arguments) (macro hygiene)']
+        kk.assumptions = ['names written by the user are pairwise distinct (C)']
+        kk.bounds = ['<= 3 parameters']
+        return kk
+    ks.append(kernel_or_error('parameter_names', argnames))
     return ks
